@@ -163,7 +163,11 @@ def check_case(case):
     sc = case["screen"]
     tm, sm = S.space_mappings(sc["ns"], sc["nt"])
     screen = S.build_screen(dict(sc, observed=sorted({r["p"] for r in sc["rows"]})), treatment_mapping=tm, sample_mapping=sm)
-    holders = [S.build_holder(ch) for ch in case["chains"]]
+    chains = case["chains"]
+    if case["kind"] == "interaction" and case["order_seed"] % 3 != 0:
+        # the chains' tables agree to about nine digits but not bit for bit (each chain file is a collection of its own)
+        chains = [[dict(p_, table=[[c_, t_, (x_ if t_ == -1 else x_ * (1.0 - ci_ * 3e-10))] for c_, t_, x_ in p_["table"]]) for p_ in ch_] for ci_, ch_ in enumerate(chains)]
+    holders = [S.build_holder(ch) for ch in chains]
     paths = []
     try:
         files = []
